@@ -11,7 +11,7 @@ use rtcm_rs::prelude::*;
 use serde_json::{json, Value};
 
 fn debug_variant(m: &Message) -> String {
-    let d = format!("{:?}", m);
+    let d = guard(|| format!("{:?}", m)).unwrap_or_else(|p| format!("<Debug panicked at {}>", p.site));
     d.split(|c: char| c == '(' || c == ' ' || c == '{').next().unwrap_or("").to_string()
 }
 
